@@ -254,7 +254,7 @@ func execC01(prog interface{}, c *Case) *Violation {
 func init() {
 	register(&PropDef{ID: "C01",
 		Rule: "chain histories (genesis incl. optional map-typed signing-info / missed-block sections with up to 8 foreign entries, 2-20 (thorough 60) blocks with votes, evidence, valid and invalid " +
-			"transactions of every kind, awards and burns, arbitrary monotone times, restart points, two pruning configurations) executed on two independently built instances: A is stopped and reopened " +
+			"transactions of every kind, awards and burns, arbitrary monotone times, restart points, two pruning configurations, 1 history in 3 under a block gas limit of 1..10^7 handed over at InitChain) executed on two independently built instances: A is stopped and reopened " +
 			"from its database at the generated points, B never restarts, uses another pruning configuration and additionally receives CheckTx / Simulate / Query traffic; after every request the " +
 			"consensus-relevant responses (InitChain validators, BeginBlock/EndBlock/DeliverTx events, codes, data, validator updates in order, Commit hash, Info) must be identical; a panic must be the " +
 			"same panic in both. Go randomises map iteration per loop, so two in-process instances are independent samples of every map-ordered code path. Non-trivial = >=1 accepted transaction, " +
